@@ -15,6 +15,10 @@ import (
 	"strings"
 	"testing"
 
+	"errors"
+
+	"github.com/artela-network/aspect-core/djpm"
+	aspecttypes "github.com/artela-network/aspect-core/types"
 	"github.com/ethereum/go-ethereum/common"
 	"github.com/ethereum/go-ethereum/core/rawdb"
 	"github.com/ethereum/go-ethereum/core/state"
@@ -37,9 +41,37 @@ type zzScenario struct {
 	Storage  map[string]string ` + "`json:\"storage\"`" + `
 	ReadOnly bool              ` + "`json:\"read_only\"`" + `
 	CtxNil   bool              ` + "`json:\"ctx_nil\"`" + `
+	Code     string            ` + "`json:\"code\"`" + `
+	Value    int64             ` + "`json:\"value\"`" + `
+	Gas      uint64            ` + "`json:\"gas\"`" + `
+	JPOff    bool              ` + "`json:\"jp_off\"`" + `
+	FailAt   string            ` + "`json:\"fail_at\"`" + `
+	FailErr  string            ` + "`json:\"fail_err\"`" + `
 }
 
+type zzProvider struct {
+	failAt, failErr string
+	fired           []string
+}
+
+func (p *zzProvider) GetTxBondAspects(_ context.Context, a common.Address, pc aspecttypes.PointCut) ([]*aspecttypes.AspectCode, error) {
+	p.fired = append(p.fired, string(pc))
+	if p.failAt != "" && string(pc) == p.failAt {
+		return nil, errors.New(p.failErr)
+	}
+	return nil, nil
+}
+func (p *zzProvider) GetAccountVerifiers(context.Context, common.Address) ([]*aspecttypes.AspectCode, error) {
+	return nil, nil
+}
+func (p *zzProvider) GetLatestBlock() int64 { return 1 }
+
 type zzResult struct {
+	Gas        uint64   ` + "`json:\"gas_left\"`" + `
+	CalleeBal  string   ` + "`json:\"callee_balance_after\"`" + `
+	CallerBal  string   ` + "`json:\"caller_balance_after\"`" + `
+	Fired      []string ` + "`json:\"join_points_fired\"`" + `
+	Slot0      string   ` + "`json:\"callee_slot0_after\"`" + `
 	Panicked bool     ` + "`json:\"panicked\"`" + `
 	Panic    string   ` + "`json:\"panic,omitempty\"`" + `
 	Err      string   ` + "`json:\"err,omitempty\"`" + `
@@ -184,6 +216,36 @@ func zzRun(sc *zzScenario, res *zzResult) {
 		zzSetErr(res, err)
 		res.Out, res.OutLen = hex.EncodeToString(out), len(out)
 		res.StackLen = stack.len()
+	case "evmcall":
+		// one top-level CALL with a scripted Aspect provider: caller 0xaa (balance 1000) -> callee 0xbb (code from the scenario)
+		prov := &zzProvider{failAt: sc.FailAt, failErr: sc.FailErr}
+		djpm.NewAspect(prov, aspecttypes.NoOpsLogger{})
+		statedb, _ := state.New(common.Hash{}, state.NewDatabase(rawdb.NewMemoryDatabase()), nil)
+		caller, callee := common.HexToAddress("0xaa"), common.HexToAddress("0xbb")
+		statedb.CreateAccount(caller)
+		statedb.AddBalance(caller, big.NewInt(1000))
+		statedb.CreateAccount(callee)
+		statedb.SetCode(callee, zzHex(sc.Code))
+		statedb.AddAddressToAccessList(caller)
+		statedb.AddAddressToAccessList(callee)
+		statedb.AddSlotToAccessList(callee, common.Hash{})
+		cfg := *params.AllEthashProtocolChanges
+		evm := NewEVM(BlockContext{BlockNumber: big.NewInt(1), Difficulty: big.NewInt(0), GasLimit: 10000000,
+			CanTransfer: func(db StateDB, a common.Address, v *big.Int) bool { return db.GetBalance(a).Cmp(v) >= 0 },
+			Transfer: func(db StateDB, f, t common.Address, v *big.Int) { db.SubBalance(f, v); db.AddBalance(t, v) },
+			GetHash:  func(uint64) common.Hash { return common.Hash{} }}, TxContext{GasPrice: big.NewInt(0)}, statedb, &cfg, Config{})
+		if sc.JPOff {
+			evm.CloseAspectCall()
+		}
+		out, left, err := evm.Call(context.Background(), AccountRef(caller), callee, zzHex(sc.Input), sc.Gas, big.NewInt(sc.Value))
+		zzSetErr(res, err)
+		res.Out, res.OutLen, res.Gas = hex.EncodeToString(out), len(out), left
+		res.CalleeBal, res.CallerBal = statedb.GetBalance(callee).String(), statedb.GetBalance(caller).String()
+		res.Slot0 = statedb.GetState(callee, common.Hash{}).Hex()
+		res.Fired = prov.fired
+		if evm.depth != 0 || evm.tracer.callTree.current != nil {
+			res.Notes = append(res.Notes, "bookkeeping-open")
+		}
 	case "maporder":
 		// a key with 8 children; the list-valued query is repeated: two different answers = nondeterminism observed
 		tr := NewTracer()
